@@ -166,7 +166,7 @@ func c27Run(in *bufio.Scanner, w *bufio.Writer) {
 	if err != nil {
 		fmt.Fprintln(os.Stderr, "c27: rig:", err)
 		for in.Scan() {
-			fmt.Fprintln(w, "err rig")
+			fmt.Fprintln(w, "timeout rig")
 		}
 		return
 	}
@@ -183,7 +183,7 @@ func c27Run(in *bufio.Scanner, w *bufio.Writer) {
 					fmt.Fprintln(w, "panic")
 				}
 			}()
-			ctx, cancel := context.WithTimeout(context.Background(), 20*time.Second)
+			ctx, cancel := context.WithTimeout(context.Background(), HxScale(60*time.Second))
 			defer cancel()
 			name := func(t string) string {
 				v, ok := c27Untok(t)
@@ -198,7 +198,7 @@ func c27Run(in *bufio.Scanner, w *bufio.Writer) {
 				caseNo = f[1]
 				fmt.Fprintln(w, line)
 			case f[0] == "idle" && len(f) == 1:
-				time.Sleep(1500 * time.Millisecond)
+				time.Sleep(HxScale(1500 * time.Millisecond))
 				fmt.Fprintln(w, "ok")
 			case f[0] == "save" && len(f) == 4:
 				items := map[string]*hydrex.CoreData{}
